@@ -130,6 +130,8 @@ def concretise(v, m):
         if isinstance(x, Fraction):
             return {"t": "frac", "n": x.numerator, "d": x.denominator}
         return x
+    if getattr(v, "concretise", None) is not None and not isinstance(v, type):
+        return v.concretise(m)
     if isinstance(v, Seq):
         items = []
         for g in v.segs:
